@@ -352,6 +352,21 @@ def concrete_roundtrips(repo, seed, n):
             if not ok:
                 return ev, dict(pair="uset2bulk/bulk2uset", what="USET table written to bulk and read back differs (ids, locations, coordinate systems)",
                                 max_diff=float(abs(uu2.values[:, 1:].astype(float) - uu.values[:, 1:].astype(float)).max()) if uu2.shape == uu.shape else None)
+            # the same table with scalar points before / between / after the grids: the grids are written and recovered exactly as without them
+            spq = n2p.make_uset([[7, 0]], n2p.mkusetmask("q"))
+            spq2 = n2p.make_uset([[990001, 0]], n2p.mkusetmask("q"))
+            for where_, tab_ in (("before", pd.concat([spq, uu])), ("between", pd.concat([uu.iloc[:12], spq2, uu.iloc[12:]])), ("after", pd.concat([uu, spq2])),
+                                 ("before and after", pd.concat([spq, uu, spq2]))):
+                f = io.StringIO(); ev += 1
+                try:
+                    nastran.uset2bulk(f, tab_); f.seek(0)
+                    uu3 = nastran.bulk2uset(f)[0]
+                except Exception as ex:
+                    return ev, dict(pair="uset2bulk/bulk2uset", what="exception %r with a scalar point %s the grids" % (ex, where_))
+                g3 = uu3[uu3.index.get_level_values(1) > 0]
+                ok = g3.shape == uu.shape and list(g3.index) == list(uu.index) and np.allclose(g3.values[:, 1:].astype(float), uu.values[:, 1:].astype(float), rtol=1e-6, atol=1e-6)
+                if not ok:
+                    return ev, dict(pair="uset2bulk/bulk2uset", what="with a scalar point %s the grids in the USET table, the grids written to bulk and read back differ" % where_)
             ci = n2p.mkcordcardinfo(uu)
             f = io.StringIO()
             nastran.wtcoordcards(f, ci); f.seek(0); ev += 1
@@ -418,6 +433,36 @@ def concrete_roundtrips(repo, seed, n):
             if not ok:
                 return ev, dict(pair="wtdmig/rddmig", form=form, complex=cplx, rows=rows, matrix=str(np.round(M, 4).tolist()),
                                 got_index=[list(map(int, x)) for x in back.index], got=str(np.round(back.values, 4).tolist()))
+        # form 9 (columns identified by their number, single-level column index): column numbers contiguous from 1 or with gaps; minimal and expanded reads
+        colnums = [[1, 2, 3], [1, 3, 7], [2, 5], [4]][it % 4]
+        cplx9 = bool(it % 3 == 0)
+        M9 = rng.randn(nrow, len(colnums)) * (rng.rand(nrow, len(colnums)) < 0.7)
+        M9[rng.randint(nrow), :] += 1.0                        # no empty column
+        M9[M9 == 0] = 0.0
+        if cplx9:
+            M9 = M9 + 1j * rng.randn(*M9.shape) * (M9 != 0)
+        for c_ in range(len(colnums)):
+            if not np.any(M9[:, c_]):
+                M9[0, c_] = 2.5
+        df9 = pd.DataFrame(M9, index=pd.MultiIndex.from_tuples(rows, names=["id", "dof"]), columns=colnums)
+        for expanded in (False, True):
+            f = io.StringIO(); ev += 1
+            try:
+                nastran.wtdmig(f, {"K9": df9}); f.seek(0)
+                b9 = nastran.rddmig(f, expanded=expanded)["k9"]
+                ok9 = True
+                for (ri_, di_), rowv in zip(rows, M9):
+                    for cn_, val_ in zip(colnums, rowv):
+                        got_ = b9.loc[(ri_, di_), cn_] if ((ri_, di_) in b9.index and cn_ in b9.columns) else 0.0
+                        ok9 = ok9 and np.isclose(got_, val_, rtol=1e-8, atol=0)
+                ok9 = ok9 and np.count_nonzero(b9.values) == np.count_nonzero(M9)
+                if expanded:
+                    ok9 = ok9 and list(b9.columns) == list(range(1, max(colnums) + 1))
+            except Exception as ex:
+                return ev, dict(pair="wtdmig/rddmig", form=9, expanded=expanded, columns=colnums, what="exception %r" % (ex,))
+            if not ok9:
+                return ev, dict(pair="wtdmig/rddmig", form=9, expanded=expanded, columns=colnums, complex=cplx9, what="form-9 matrix not recovered (values by row label and column number)",
+                                got_columns=[int(x) for x in b9.columns])
     return ev, None
 
 
